@@ -14,6 +14,12 @@ abse() * factor(units()), factors from the published tables, mc/refmodels/quanti
                  object, as a list of base-dimension exponents, or as an exact Quantity k*unit (k in {1, 2, 0.25});
                  for k != 1 only "rele() unchanged" is demanded (the statement does not say what the value means)
   exact          all operands exact -> result abse() is None (an all-zero uncertainty is accepted as exact too)
+  rebase         q.rebase() (in-place merge of units repeating a dimension: cm*m -> cm2) is a linear conversion:
+                 abse scaled like the value (compared in base dimensions), rele() unchanged
+  same object    q+q, q-q, q*q, q/q with both operands the very same object obey the same clauses as two operands
+  zero values    operands whose value is exactly 0 (scalar / array element) take part in construction, sums, exact
+                 factors, conversions and rebase; a nan uncertainty there is a failure (it is neither the sum nor the
+                 scaled error); rele() is compared only on non-zero elements (undefined at 0)
 
 Not demanded (statement silent): the size of the uncertainty of a power, of a negation, and of c/q (exact divided
 by uncertain) - only non-negativity is checked there; the first-order bound for non-positive values; whether a
@@ -49,6 +55,9 @@ VALUES_T = VALUES + [7.5, -1e3, 40.0, [1e3, -7.5]]      # arrays all of length 2
 ERRORS_T = ERRORS + [["abse", 0.02], ["rele", 1.0]]
 FACTORS_T = FACTORS + [1e3, -1e-3]
 POWERS = [2, 3, -1, -2, 0.5, -0.5, [1, 2], [-3, 2]]
+# a measured value may be exactly 0 (scalar or inside an array): used wherever the statement gives an equality
+# (construction, sums, exact factors, conversions, rebase); not for powers / quotients / first-order bounds
+ZERO_VALUES = [0.0, [0.0, 2.0], [-4.0, 0.0]]
 
 U_NONE = ()
 U_M = (("", "m", 1),)
@@ -71,6 +80,12 @@ _ENE = [U_J, U_ERG, U_KGM2S2, (("", "eV", 1),), (("k", "cal", 1),)]
 CONVERSIONS_T = CONVERSIONS + [(a, b) for grp in (_LEN, _ENE) for a in grp for b in grp
                                if a != b and (a, b) not in CONVERSIONS]
 
+U_DM = (("d", "m", 1),)
+U_MM = (("m", "m", 1),)
+# rebase(): in-place merge of units that repeat a dimension with different prefixes/units = a linear conversion
+REBASE_UNITS = [U_CM + U_M, U_CM + U_M + U_DM, U_ERG + U_J, U_MM + U_KM, U_CM + U_S,
+                (("", "m", 2), ("c", "m", -1)), U_J + U_S + (("", "erg", -1),), U_KM + (("", "m", 2),)]
+SELF_UNITS = [U_M, U_KM, U_NONE, U_CM]       # a*a, a/a, a+a, a-a with BOTH operands the very same object
 TARGET_SCALES = [1, 2, 0.25]     # to(Quantity(k, unit)): an exact "unit with a scale" as conversion target
 
 _GUARD = None
@@ -143,6 +158,18 @@ def _target(case):
     raise HarnessError("unknown conversion target form %r" % (tf,))
 
 
+def _rele(q, case):
+    """rele() as array; where the value is 0 the relative uncertainty is undefined (inf/nan or an error): those
+    elements are masked in the comparison, and an exception of rele() is tolerated only then"""
+    try:
+        with np.errstate(all="ignore"):
+            return np.asarray(q.rele(), dtype=float)
+    except Exception:
+        if np.any(_vals(case["a"]) == 0):
+            return None
+        raise
+
+
 def _abse(q):
     e = q.abse()
     if e is None:
@@ -176,6 +203,18 @@ def _eq(got, exp):
         return bool(np.all(np.isfinite(got)) and np.all(np.abs(got - exp) <= TOL * np.abs(exp)))
 
 
+def _hasnan(e):
+    return e is not None and bool(np.any(np.isnan(e)))
+
+
+def _eq_where(got, exp, mask):
+    got, exp, mask = np.broadcast_arrays(np.asarray(got, dtype=float), np.asarray(exp, dtype=float),
+                                         np.asarray(mask, dtype=bool))
+    if not np.any(mask):
+        return True
+    return _eq(got[mask], exp[mask])
+
+
 def _ge(got, bound, mask):
     got, bound, mask = np.broadcast_arrays(np.asarray(got, dtype=float), np.asarray(bound, dtype=float),
                                            np.asarray(mask, dtype=bool))
@@ -200,6 +239,8 @@ def _tags(case):
             t.append(o["e"][0] + "-input")
         if _vals(o).ndim:
             t.append("array")
+        if np.any(_vals(o) == 0):
+            t.append("value-zero")
     if case["k"] == "num":
         t.append("factor-negative" if case["c"] < 0 else "factor-positive")
         t.append("factor:plain" if case.get("cu") is None else "factor:exact-quantity")
@@ -216,6 +257,8 @@ def _tags(case):
             t.append("both-uncertain")
         if a["u"] != b["u"]:
             t.append("mixed-units")
+        if case.get("same"):
+            t.append("same-object")
     if case["k"] == "pow":
         p = case["p"]
         pv = p[0] / p[1] if isinstance(p, list) else p
@@ -243,7 +286,7 @@ def _run(case):
         obs["defective"] = True
         return obs
     if k == "bin":
-        b = _mk(case["b"])
+        b = a if case.get("same") else _mk(case["b"])
         obs["eb"] = _abse(b)
         obs["fb"] = _factor_of(b)
         if not _nonneg(obs["eb"]):
@@ -263,12 +306,12 @@ def _run(case):
     elif k == "pow":
         p = case["p"]
         res = a ** (tuple(p) if isinstance(p, list) else p)
-    elif k == "to":
+    elif k in ("to", "rebase"):
         if obs["ea"] is not None:
-            obs["ra"] = np.asarray(a.rele(), dtype=float)
-        res = a.to(_target(case))
+            obs["ra"] = _rele(a, case)
+        res = a.to(_target(case)) if k == "to" else a.rebase()
         if res.abse() is not None:
-            obs["rr"] = np.asarray(res.rele(), dtype=float)
+            obs["rr"] = _rele(res, case)
     else:
         raise HarnessError("unknown case kind %r" % (k,))
     obs["er"] = _abse(res)
@@ -282,7 +325,7 @@ def check_case(case):
     k = case["k"]
     tags = _tags(case)
     sub = dict(construct="construct", bin=dict(add="sum", sub="sum", mul="product", div="quotient").get(
-        case.get("op"), "?"), num="exact-factor", neg="negation", pow="power", to="conversion")[k]
+        case.get("op"), "?"), num="exact-factor", neg="negation", pow="power", to="conversion", rebase="rebase")[k]
     out = outcome(_run, case)
     if _guard_state() != _GUARD or out[0] == "err":
         isolation.tables_restore()
@@ -324,6 +367,8 @@ def check_case(case):
         if op in ("add", "sub"):
             if er is None:
                 return bad(dict(base_abse=_l(zA + zB)), obs, "uncertainty-lost", "bad:lost")
+            if _hasnan(er):
+                return bad(dict(abse=_l((zA + zB) / fr)), obs, "nan-uncertainty", "bad:nan")
             if not _eq(dR, zA + zB):
                 beh = "wrong-sum"
                 if eb is not None and fb != fa and _eq(er, (0.0 if ea is None else ea) + eb):
@@ -368,6 +413,8 @@ def check_case(case):
             return None, "ok:nonneg-only"                   # c / q: size not demanded
         if er is None:
             return bad(dict(base_abse=_l(expd)), obs, "uncertainty-lost", "bad:lost")
+        if _hasnan(er):
+            return bad(dict(abse=_l(expd / fr)), obs, "nan-uncertainty", "bad:nan")
         if not _eq(dR, expd):
             return bad(dict(abse=_l(expd / fr)), obs, "wrong-scale", "bad:wrong-scale")
         return None, "ok:exact-factor"
@@ -375,13 +422,15 @@ def check_case(case):
         if dA is None and not _exact(er):
             return bad("exact result (abse() None)", obs, "not-exact", "bad:not-exact")
         return None, ("ok:exact" if dA is None else "ok:nonneg-only")
-    if k == "to":
+    if k in ("to", "rebase"):
         if dA is None:
             if not _exact(er):
                 return bad("exact result (abse() None)", obs, "not-exact", "bad:not-exact")
             return None, "ok:exact"
         if er is None:
             return bad(dict(base_abse=_l(dA)), obs, "uncertainty-lost", "bad:lost")
+        if _hasnan(er):
+            return bad(dict(abse=_l(dA / fr)), obs, "nan-uncertainty", "bad:nan")
         scaled_target = case.get("tf") == "Quantity" and case["tk"] != 1
         # target k*unit with k != 1: what the value means there is not in the statement; "relative uncertainty is
         # unchanged" decides (below), the absolute size is compared only for pure unit targets
@@ -390,10 +439,14 @@ def check_case(case):
             if fr != fa and _eq(er, ea):
                 beh = "uncertainty-not-converted"
             return bad(dict(abse=_l(dA / fr)), obs, beh, "bad:" + beh)
-        if "rr" not in o or not _eq(o["rr"], o["ra"]):
+        nonzero = _vals(case["a"]) != 0          # rele of a zero value is undefined: compared elsewhere only
+        if np.any(nonzero) and (o.get("rr") is None or o.get("ra") is None
+                                or not _eq_where(o["rr"], o["ra"], nonzero)):
             obs["rele_before"] = _l(o.get("ra"))
             obs["rele_after"] = _l(o.get("rr"))
             return bad("rele() unchanged", obs, "rele-changed", "bad:rele-changed")
+        if k == "rebase":
+            return None, "ok:rebase" + (":factor!=1" if fr != fa else ":factor=1")
         return None, "ok:conversion" + (":" + case["tf"] if "tf" in case else "")
     raise HarnessError("unknown case kind %r" % (k,))
 
@@ -410,14 +463,44 @@ def _cases(tier):
             for e in errors:
                 yield _opnd(v, e, u)
 
+    def _zeros(u):
+        for v in ZERO_VALUES:
+            for e in errors:
+                yield _opnd(v, e, u)
+
+    def _operands_z(u):
+        yield from _operands(u)
+        yield from _zeros(u)
+
     for u in (U_M, U_CM, U_KM, U_S, U_NONE, U_J, U_KMH, U_KGM2S2):
-        for o in _operands(u):
+        for o in _operands_z(u):
             yield dict(k="construct", a=o)
-    for op, pairs in (("add", SUM_UNITS), ("sub", SUM_UNITS), ("mul", MUL_UNITS), ("div", MUL_UNITS)):
+    for op, pairs in (("add", SUM_UNITS), ("sub", SUM_UNITS)):
+        for ua, ub in pairs:
+            for a in _operands_z(ua):
+                for b in _operands_z(ub):
+                    yield dict(k="bin", op=op, a=a, b=b)
+    for op, pairs in (("mul", MUL_UNITS), ("div", MUL_UNITS)):
         for ua, ub in pairs:
             for a in _operands(ua):
                 for b in _operands(ub):
                     yield dict(k="bin", op=op, a=a, b=b)
+    # both operands the very same object (q*q, q/q, q+q, q-q): same clauses as for two distinct operands
+    for u in SELF_UNITS:
+        for op in ("add", "sub", "mul", "div"):
+            for a in (_operands_z(u) if op in ("add", "sub") else _operands(u)):
+                yield dict(k="bin", op=op, a=a, b=a, same=True)
+    for u in REBASE_UNITS:
+        for a in _operands_z(u):
+            yield dict(k="rebase", a=a)
+    for u in UNARY_UNITS:
+        for a in _zeros(u):
+            yield dict(k="neg", a=a)
+            for c in factors:
+                for cu in FACTOR_UNITS:
+                    yield dict(k="num", op="mul", side="L", c=c, cu=None if cu is None else _ju(cu), a=a)
+                    yield dict(k="num", op="mul", side="R", c=c, cu=None if cu is None else _ju(cu), a=a)
+                    yield dict(k="num", op="div", side="R", c=c, cu=None if cu is None else _ju(cu), a=a)
     for u in UNARY_UNITS:
         for a in _operands(u):
             yield dict(k="neg", a=a)
@@ -432,13 +515,13 @@ def _cases(tier):
                         for side in ("L", "R"):
                             yield dict(k="num", op=op, side=side, c=c, cu=None if cu is None else _ju(cu), a=a)
     for u, v in conversions:
-        for a in _operands(u):
+        for a in _operands_z(u):
             yield dict(k="to", a=a, v=_ju(v))
             yield dict(k="to", a=a, v=_ju(v), tf="BaseUnits")
             for tk in TARGET_SCALES:
                 yield dict(k="to", a=a, v=_ju(v), tf="Quantity", tk=tk)
     for u in sorted(set(u for u, _ in conversions), key=R.render):
-        for a in _operands(u):
+        for a in _operands_z(u):
             yield dict(k="to", a=a, v=_ju(u), tf="list")       # target = list of base-dimension exponents
 
 
@@ -462,6 +545,10 @@ def run_shard(desc):
         uncertain = any(case[x]["e"] is not None for x in ("a", "b") if x in case)
         if uncertain:
             sh.nontrivial += 1
+        if case.get("same") and label == "ok:first-order":
+            sh.add_extra("same_object_first_order", 1)
+        if case["k"] == "to" and uncertain and label.startswith("ok:conversion") and np.any(_vals(case["a"]) == 0):
+            sh.add_extra("zero_value_conversions", 1)
         if bad:
             sh.fail(bad)
         elif uncertain and len(sh.samples) < 1 and k % 8 == 0:
@@ -495,6 +582,10 @@ def finish(total, tier, seed):
         "conversions": tot("to:ok:conversion") + tot("to:bad"),
         "conversions to a BaseUnits object": h.get("to:ok:conversion:BaseUnits", 0) + tot("to:bad"),
         "conversions to a Quantity object": h.get("to:ok:conversion:Quantity", 0) + tot("to:bad"),
+        "rebase with a factor": h.get("rebase:ok:rebase:factor!=1", 0) + tot("rebase:bad"),
+        "same-object products with first-order bound": total.extra.get("same_object_first_order", 0)
+            + tot("bin:mul:bad"),
+        "zero-valued uncertain operands converted": total.extra.get("zero_value_conversions", 0) + tot("to:bad"),
         "powers": tot("pow:"),
         "negations": tot("neg:"),
     }
@@ -503,7 +594,9 @@ def finish(total, tier, seed):
         raise HarnessError("vacuous run, no case of: " + ", ".join(empty))
     skipped = sum(v for key, v in h.items() if key.endswith("skipped:defective-operand"))
     return dict(
-        bounds=dict(values=VALUES_T if tier == "thorough" else VALUES,
+        bounds=dict(values=VALUES_T if tier == "thorough" else VALUES, zero_values=ZERO_VALUES,
+                    rebase_units=[R.render(R.unit(*u)) for u in REBASE_UNITS],
+                    same_object_units=[R.render(R.unit(*u)) for u in SELF_UNITS],
                     uncertainties=ERRORS_T if tier == "thorough" else ERRORS,
                     exact_factors=FACTORS_T if tier == "thorough" else FACTORS, powers=POWERS,
                     sum_unit_pairs=[[R.render(a), R.render(b)] for a, b in SUM_UNITS],
@@ -520,7 +613,8 @@ MANIFEST = dict(
          "[2,-4],[0.5,3]} x {exact, abse 0.1, rele 10%} in m/cm/km/s/unit-less; every ordered pair under + - * / "
          "(5 unit pairs each, incl. mixed prefixes and folding), exact factors {2,-3,0.5,-0.25} as plain numbers and "
          "exact quantities on both sides of * and /, negation, 8 exponents, to() through 7 linear unit pairs with the target as text, BaseUnits, "
-         "base-dimension list or exact Quantity k*unit (k=1,2,0.25) "
+         "base-dimension list or exact Quantity k*unit (k=1,2,0.25), rebase() on 8 units that repeat a dimension, "
+         "same-object operands (q*q, q/q, q+q, q-q), zero-valued uncertain operands in every equality clause "
          "(thorough: 10 values x 5 uncertainty kinds, 6 factors, 65 unit pairs; 65 500 cases). "
          "Checked: abse never negative; sums add uncertainties; exact factor scales by |c|; first-order lower bound "
          "for positive uncertain products/quotients; conversion scales abse with the value and keeps rele; exact "
